@@ -235,3 +235,13 @@ def act_default_store_load(path):
 
     run.__name__ = "default-store-load(%s)" % path
     return run
+
+
+# --- kept functions that return tables (C04 frame job)
+
+
+def frame_of(tag):
+    from vp import storemodel as SM
+
+    vlog.hit("frame_of:" + tag)
+    return SM.result_value(tag)
